@@ -226,6 +226,35 @@ func alphabet(name string) []sop {
 					m["HasFlag(5)"] = fl(tr.r1)
 				}})
 		}
+		// the attached will changed through what Will() returns (topic and
+		// properties): the accessor shows it, and the frame must stay a valid
+		// CONNECT that carries what the accessors report
+		{
+			mkRef := func() *mq.Publish {
+				w := mq.Pub(1, "att/will", "pw")
+				return w
+			}
+			late := func(w *mq.Publish) {
+				w.SetContentType("late-content-type")
+				w.AddUserProp("late", "prop")
+				w.SetTopicName("late/topic")
+			}
+			ref := mkRef()
+			late(ref)
+			add(sop{Name: "SetWill(w);Will().SetContentType/AddUserProp/SetTopicName",
+				Call: func(q any) {
+					c := q.(*mq.Connect)
+					c.SetWill(mkRef())
+					late(c.Will())
+				},
+				Model: func(m KV) {
+					m["Will"] = render(reflect.ValueOf(ref))
+					m["HasFlag(2)"] = "true"
+					m["HasFlag(3)"] = "true"
+					m["HasFlag(4)"] = "false"
+					m["HasFlag(5)"] = "false"
+				}})
+		}
 	case "ConnAck":
 		add(withModel(setOps("SetSessionPresent", "SessionPresent", 1, bools...), func(i int, m KV) { m["HasFlag(0)"] = fl(i == 1) })...)
 		add(setOps("SetReasonCode", "ReasonCode", 1, rcs...)...)
